@@ -7,6 +7,136 @@ VERIF = os.path.dirname(os.path.dirname(os.path.abspath(__file__)))
 ALL = [f"C{i:02d}" for i in range(1, 21)]
 
 CLAIMED = {
+    "C03": dict(
+        text="Coq theorems (all transition lists, all naming flags, by induction over the registration fold) about a Gallina model of the "
+             "coefficient-name registration and of the prefactor rule: the mapping sends every registered key to itself or to its helicity-reversed "
+             "partner and is idempotent; the builder's prefactor is the product of eta over exactly the nodes mapped to a different suffix; two chains "
+             "sharing a coefficient differ by the product of eta over exactly the positions where their suffixes differ; the pre-fix rule is refuted by "
+             "a two-node witness; under the CG reflection symmetry (Section hypothesis, validated exactly against SymPy for j<=3) reversing both daughter "
+             "helicities multiplies the LS-expanded amplitude by eta=P P1 P2 (-1)^(J-s1-s2), for chains of any length. Tie: correspondence on corpus "
+             "reactions x flags x variants (suffixes, mapping, sequential suffix, prefactor, CG arguments) + numeric canonical-vs-helicity harness.",
+        note="Coq kernel; stdlib Reals axioms in the CG theorems; hand-written Naming.v tied by correspondence (sampled); CG_reflection hypothesis; "
+             "Wigner-D factors only evaluated numerically; private name-mangled methods of the builder are called by the harness.",
+        technique="Coq proof (fold induction) about a Gallina reference model + correspondence run + numeric canonical/helicity equivalence",
+        design="6/C03", category="proof"),
+    "C04": dict(
+        text="PARTIAL. Proved in Coq on terms regenerated from /repo: Phi/Theta values and ranges, the frame chain BoostZ.Ry(-Theta).Rz(-Phi) aligns "
+             "every off-axis momentum with +z (pins all sign conventions), it is the inverse Euler rotation, z-rotations shift Phi and leave deeper "
+             "frames unchanged, and formulate_isobar_wigner_d has the D^J_{M,l_hel-l_opp}(-phi,theta,0) shape on all nodes of a reference reaction. "
+             "Proved abstractly (rotation group + D matrices with D_mul/D_unit as Section hypotheses, validated exactly against SymPy for j<=2): "
+             "one-node, two-node cascade and multi-chain unpolarised intensities are invariant. The bridge from formulated models to the abstract "
+             "amplitudes is NOT proved: invariance of models is decided by the differential harness (rotate events, recompute kinematics, compare "
+             "intensities) over single topologies (must hold), multi-topology aligned/unaligned families (known findings).",
+        note="Coq kernel; stdlib Reals axioms; SU(2) representation theory assumed (named hypotheses); float64 harness with conditioning guard; "
+             "known findings: multi-topology models (unaligned spinless, axis-angle, DPD) are not invariant on the pinned tree.",
+        technique="Coq proof over regenerated kinematics + abstract representation-theoretic lemmas; numeric rotation harness decides the model-level clause",
+        design="6/C04", category="proof"),
+    "C06": dict(
+        text="Coq theorems over a state-machine model (process-global memo tables holding heap addresses, builders, operations NewBuilder/SetConfig/"
+             "SetNaming/Assign/RegisterTopo/Permutate/Formulate): for ALL operation histories on any number of builders and every skeleton that does "
+             "not write through a memoised object, each Formulate returns formulate_spec(reaction, config); memo tables are transparent; the sorted "
+             "output dictionaries depend only on the key->value map (any insertion order); pre-fix skeletons are refuted by computed witnesses. The "
+             "skeleton (which define_symbols return memoised objects, what is written after insertion) is EXTRACTED from the running implementation "
+             "each run by recording functools caches, and histories are executed in-process and compared with fresh-process digests under several "
+             "PYTHONHASHSEEDs. Hash-seed independence beyond the modelled set iteration is exercised, not proved.",
+        note="Coq kernel, no axioms; Purity.v is a hand model tied by skeleton extraction + history correspondence (sampled); fresh-process/seed clause partial.",
+        technique="Coq proof (invariant + induction over operation lists) about a state-machine model + run-time skeleton extraction + history correspondence",
+        design="6/C06", category="proof"),
+    "C07": dict(
+        text="Coq theorems for ALL isobar trees about a Gallina model of compute_helicity_angles / compute_invariant_masses / create_expressions: every "
+             "mass entry is (m_ids, InvariantMass of the sum over the same sorted ids); the angle entries equal the documented specification; a name "
+             "determines its value across trees over the same final state, so merging registered topologies is independent of set iteration order "
+             "(proved for the repaired rule on all trees; the pre-fix overwrite is refuted by a witness); on regenerated trees InvariantMass/Phi/Theta "
+             "denote sqrt(E^2-|p|^2), atan2(y,x), acos(z/|p|). Tie: correspondence on all isobar topologies with 2..5 leaves x permutations x "
+             "renumberings x adapter sets; numeric harness against an independent boost-and-rotate evaluator and the Dalitz closed form (numeric only).",
+        note="Coq kernel; structural theorems axiom-free, analytic ones stdlib Reals; Kin.v hand model tied by correspondence; theta=Dalitz form and "
+             "frame-chain Lorentz property numeric only; known finding: nan angles below a subsystem exactly along z.",
+        technique="Coq proof (tree induction) about a Gallina reference model + correspondence run + independent numeric frame evaluator",
+        design="6/C07", category="proof"),
+    "C09": dict(
+        text="Coq theorems: (all n) in any ring with anti-involution and central i, K hermitian and X a two-sided inverse of 1-iK give S=1+2iKX unitary and "
+             "T symmetric, also in the relativistic convention with rho=r.r (1x1..3x3 complex matrices shown to be instances); for the matrices "
+             "regenerated from /repo (n=1,2; n=3 thorough) T(1-iK)=K=(1-iK)T entrywise wherever defined, T=conj(sqrt rho) That sqrt rho, hence "
+             "unitarity and symmetry of the generated entries for real symmetric K and rho>0; the library's pole parametrisations are real symmetric "
+             "for EVERY n_poles (induction over the pole sum; energy-dependent width opaque and assumed real>=0, discharged numerically). Numeric "
+             "harness |S^dagger S-1|, |T-T^T| for n<=3, poles<=4, L<=4.",
+        note="Coq kernel; stdlib Reals/Coquelicot axioms; ser.py; reading of Sum(body,(R,1,n_poles)); EnergyDependentWidth/FormFactor opaque; "
+             "formulate(parametrize=True)=substitution checked numerically.",
+        technique="Coq proof (non-commutative ring algebra + field over C on regenerated matrices + induction over pole sums)",
+        design="6/C09", category="proof"),
+    "C10": dict(
+        text="Coq theorems on vectors regenerated from /repo: (1-iK)F=P entrywise (n=1,2; n=3 non-relativistic in thorough) and the relativistic analogue "
+             "with the code's K-hat and the same rho; a vm_compute traversal of the parametrised results built with marker arguments shows that only the "
+             "caller's phase-space factor, angular momentum and radius occur (with a generic lemma that a non-occurring head cannot influence the value); "
+             "for one channel and one pole T and F reduce to the library's Breit-Wigner functions. Numeric residuals and atoms scan as search. "
+             "RelativisticPVector with 3 channels is not covered (SymPy's inverse does not terminate in an hour).",
+        note="Coq kernel; stdlib Reals axioms; ser.py attr_suffix puts non-SymPy attributes into the head; memoisation only exercised.",
+        technique="Coq proof (field over C on regenerated vectors; syntactic occurrence check by computation with a soundness lemma)",
+        design="6/C10", category="proof"),
+    "C11": dict(
+        text="Coq theorems, for all real s and positive masses, about the five phase-space trees regenerated from /repo (principal-branch semantics): "
+             "q^2 symmetric and zero at (m1+-m2)^2; above threshold the real part of every variant is 2 sqrt(q^2)/sqrt(s) (imaginary part 0 for the three "
+             "real ones); Complex = i Abs in the gap; EqualMass = SWave on the whole real axis except s in {0,4m^2} (all three regimes, incl. the "
+             "half-angle identity); both tend to 0 at threshold (epsilon-delta) and the exact model's behaviour AT threshold is stated. Numeric harness "
+             "through doit()+lambdify incl. 1e+-8 from threshold and asymptotic s. Known finding: SWave loses all float precision for s>~1e7 m1 m2.",
+        note="Coq kernel; stdlib Reals/classical axioms; DenC/CLib principal-branch semantics; ComplexSqrt modelled by get_definition() (asserted equal to its NumPy print); floating point only exercised.",
+        technique="Coq proof (real/complex analysis over regenerated SymPy trees)",
+        design="6/C11", category="proof"),
+    "C13": dict(
+        text="Coq theorems (all reactions as lists of transitions, all assignment histories) about a Gallina model of DynamicsSelector and the dynamics "
+             "part of the builder: an assignment sets exactly the decays its selection denotes; after any history the builder of a decay is that of the "
+             "last denoting assignment; every node of every formulated chain (incl. identical-particle permutations) is a key; the chain amplitude "
+             "with dynamics is the amplitude without times the product over nodes of the builder applied to that node's own variable set (masses of "
+             "the parent's and the two children's leaves, L from the interaction else the integer spin); defaults are last-wins with a warning exactly "
+             "on conflict and equal the particle table for the library builders; equal names carry equal defaults under the forced hypothesis that the "
+             "identifier determines mass and width (refuted without it). Tie: history correspondence on corpus reactions + oracle harness.",
+        note="Coq kernel, no axioms; Selector.v hand model tied by correspondence (sampled); chain visiting order taken from the implementation; a qrules "
+             "particle-table identifier collision (N(1535)0 latex) makes the last clause false in practice for that pair (evidence note).",
+        technique="Coq proof (fold induction) about a Gallina reference model + history correspondence",
+        design="6/C13", category="proof"),
+    "C16": dict(
+        text="Coq theorems about a small-step model of perform_cached_doit over a directory (any key function, any doit): for ANY number of concurrent "
+             "calls, any interleaving, a crash at any point incl. after any written chunk, and any truncation/deletion/garbage/legacy/foreign file, the "
+             "robust variant (current code) preserves 'every valid entry (src,res) has res=doit src', every completed call returns doit(expr), nothing "
+             "raises, and an undisturbed call terminates; the pre-fix variant is correct only under injective keys and undisturbed writes and is "
+             "refuted by three computed witnesses (collision, truncation, concurrent reader). Tie: scripted directory histories on real temporary "
+             "directories (every-prefix truncation, pre-existing files, killed writers, forked interleavings at patched open/dump/replace, three hash "
+             "modes) compared op by op with the model; every return value compared with expr.doit().",
+        note="Coq kernel, no axioms; Cache.v hand model tied by correspondence; OS facts (atomic rename, unique temp names, prefix of a pickle is unloadable) assumed; forged loadable files excluded by hypothesis.",
+        technique="Coq proof (invariant over an interleaving transition system with crash/fault steps) + history correspondence with fault enumeration",
+        design="6/C16", category="proof"),
+    "C17": dict(
+        text="Coq theorems (all models, all rename maps) about a Gallina model of rename_symbols: every attribute of the renamed model is the original with "
+             "the symbol map applied (keys, values, dict-comprehension merge semantics, re-sorting); assumptions preserved; unrelated symbols and values "
+             "untouched; empty and unknown maps are no-ops; the value of the renamed expression at rho equals the original at rho composed with the "
+             "map (merging two parameters couples them and nothing else); closure (C01) is preserved unless a parameter is identified with a kinematic "
+             "variable; both excluded merge kinds are refuted by witnesses (known findings). Composition is partial. Tie: correspondence on a zoo of "
+             "formulated models x chains of maps of 15 kinds (all five dictionaries incl. order, expression, closure) + numeric intensity comparison.",
+        note="Coq kernel, no axioms; Rename.v hand model tied by correspondence (sampled); PoolSum unfolding uninterpreted; semantics proved for PoolSum-free expressions.",
+        technique="Coq proof (structural induction) about a Gallina reference model + correspondence run",
+        design="6/C17", category="proof"),
+    "C18": dict(
+        text="Coq theorems for ANY summand, any number of indices, any nesting depth (values closed): the denotation of a PoolSum is the explicit sum over "
+             "the product of its pools; evaluate and doit preserve it and leave no PoolSum; free symbols are those of summand and pools minus indices and "
+             "the value depends only on them; substituting an index symbol leaves the node unchanged; substituting a free symbol commutes with "
+             "evaluation; cleanup preserves the value exactly unless an index absent from the summand has a pool of size != 1 (refuted in general by the "
+             "method's own doctest: known finding); shadowed nested indices evaluate inner-first; the unfolding loop of HelicityModel.expression "
+             "preserves the value and is complete for builder-shaped nests. Tie: correspondence on random expressions (doit, evaluate, free_symbols, "
+             "cleanup, subs, xreplace, expression) + itertools.product oracle.",
+        note="Coq kernel; axiom-free except two witnesses over R; PoolSum.v hand model tied by correspondence (sampled); capture-avoidance and non-symbol substitution targets not modelled.",
+        technique="Coq proof (structural induction over an expression type with binders) + correspondence run",
+        design="6/C18", category="proof"),
+    "C19": dict(
+        text="Coq theorems on the 16+16+64 angle trees regenerated from /repo (error branches included): structural identities for all tuples "
+             "(zeta^i_{j(0)}=zeta^i_{j(i)}, zero diagonals, antisymmetry); at every interior three-body event (non-collinear momenta, parent at rest) "
+             "every tree is well defined - all arccos arguments in [-1,1], roots of positives, no division by zero; theta-hat is the signed angle between "
+             "the three-momenta; theta_ij is the angle in the (ij) rest frame against the spectator (stated through a Lorentz-invariant Gram cosine "
+             "proved equal to the rest-frame Euclidean cosine), theta_ij+theta_ji=pi; zeta^i_{j(k)} is the signed angle in particle i's rest frame and "
+             "the cyclic sum rule holds at the level of angles for all six orderings; massless case zeta=0. 80-digit numeric harness against an "
+             "independent boost evaluator, near-boundary points, DPD model definitions.",
+        note="Coq kernel; stdlib Reals axioms; ser.py; doit() before serialisation (Kallen tied separately); boundary/collinear points and float64 only exercised.",
+        technique="Coq proof (real analysis over regenerated SymPy trees; invariant Gram-form geometry)",
+        design="6/C19", category="proof"),
     "C02": dict(
         text="Coq theorem, for ALL reaction data (any number of outer-projection groups, topologies, chains, nodes, any spins/LS/couplings/"
              "prefactors/lineshapes) and ALL numerical points and ANY interpretation of WignerD and CG: the expected model expression is well "
